@@ -27,8 +27,8 @@ def o3_2a_smallest_snapshot(mir, tier):
     P[r'VersionSet::num_files_at_level'] = lambda se, env, pc, vs, l: lib.one(env, bv(2))
     P[r'VersionSet::get_prev_sequence_number'] = lambda se, env, pc, vs: lib.one(env, prev)
     P[r'SnapshotList::is_empty'] = lambda se, env, pc, l: lib.one(env, empty)
-    P[r'SnapshotList::oldest'] = lambda se, env, pc, l: lib.one(env, {'abstract': True, 'which': 'oldest'})
-    P[r'SnapshotList::newest'] = lambda se, env, pc, l: lib.one(env, {'abstract': True, 'which': 'newest'})
+    P[r'SnapshotList::oldest'] = lambda se, env, pc, l: lib.one(env, mir.mk_struct('Node', element={'abstract': True, 'which': 'oldest'}))
+    P[r'SnapshotList::newest'] = lambda se, env, pc, l: lib.one(env, mir.mk_struct('Node', element={'abstract': True, 'which': 'newest'}))
     P[r'<Arc<parking_lot::lock_api::RwLock<parking_lot::RawRwLock, Node<InnerSnapshot>>> as Deref>::deref'] = lib.ident
     P[r'InnerSnapshot::sequence_number'] = lambda se, env, pc, n: lib.one(env, s_old if se.deref(env, n).get('which') == 'oldest' else s_new)
     def cs_new(se, env, pc, manifest, seq):
